@@ -169,6 +169,10 @@ class String(Object, str):
             # The content ends at the first `]brackets]`, which may begin
             # inside the content and end inside the closing delimiter.
             raise ValueError(f"Syntactically illegal bracket string: {s!r}")
+        if brackets is not None and (brackets == "f" or brackets.startswith("f-")):
+            # `#[f[...]f]` and `#[f-x[...]f-x]` are read as f-strings.
+            raise ValueError(
+                f"A bracket string delimited by {brackets!r} is an f-string; use `FString`")
         value.brackets = brackets
         return value
 
